@@ -46,6 +46,7 @@ BatchAccepts(k, supplied, marks, b) ==
     /\ supplied = k.set
     /\ Len(marks) = Len(supplied.m)
     /\ CheckSigs(supplied.m, marks, k.thr)
+    /\ SumOver(b.txs, LAMBDA tr : tr.a) <= Get(k.cust, b.tok, 0)   \* the token transfers out of the contract's own balance must succeed
 AfterBatch(k, b) ==
     [k EXCEPT !.lbn = Put(@, b.tok, b.n), !.evn = @ + 1, !.blk = @ + 1,
               !.cust = Put(@, b.tok, Get(@, b.tok, 0) - SumOver(b.txs, LAMBDA tr : tr.a))]
